@@ -67,7 +67,7 @@ def expr(form, refs):
 
 
 def render(prog, form1="plain", form2="arith", as_kw=True, qualify=None, join="join", paren_source=False, spell=None, cte=False,
-           inner_join=None, where_sub=None):
+           inner_join=None, where_sub=None, merge_insert=True):
     """spell: statement-local alias -> the text it is written as (renaming of statement-local names, C08);
     cte: derived tables are written as CTEs and read without an alias; inner_join: the FROM of every derived table joins one
     more table, read under that name (inner columns are then qualified with the inner table's bare name)"""
@@ -106,6 +106,20 @@ def render(prog, form1="plain", form2="arith", as_kw=True, qualify=None, join="j
         if len(refs) == 1 and it["al"] == "none":
             e = refs[0]          # an un-aliased single reference keeps its own name only when written plainly
         its.append(e + (" as " + it["al"] if it["al"] != "none" else ""))
+    if prog["kind"] == "merge":
+        # both arms carry the same assignments; the insert arm only when every item names a column of its own
+        names, exprs = [], []
+        for it, e in zip(prog["items"], its):
+            names.append(it["al"] if it["al"] != "none" else it["refs"][0]["c"])
+            exprs.append(e[:-len(" as " + it["al"])] if it["al"] != "none" else e)
+        src = "".join(fr)
+        on = "tgt.zid = %s.zid" % exposed(rels[0], sp)
+        out = "%smerge into %stgt using %s on %s when matched then update set %s" % (
+            "with " + ", ".join(ctes) + " " if ctes else "", qualify + "." if qualify else "", src, on,
+            ", ".join("%s = %s" % (n, e) for n, e in zip(names, exprs)))
+        if merge_insert:
+            out += " when not matched then insert (%s) values (%s)" % (", ".join(names), ", ".join(exprs))
+        return out
     if prog["kind"] == "update":
         # UPDATE tgt SET name = expression FROM relations [WHERE tgt.zid IN (SELECT zid FROM s.zq <a name of the outer scope>)]
         sets = []
